@@ -276,3 +276,15 @@ Proof. vm_compute. reflexivity. Qed.
 Example C11_example_self_reference :
   parse_templates (fun _ => all_params) ex_env (set ex_defaults PStruct (B "{{.StructName}}x")) = Err InfiniteLoop.
 Proof. vm_compute. reflexivity. Qed.
+
+(* Resource use is outside the model (Coq lists have no size limit): a value that mentions
+   itself k times is multiplied by k in every pass.  With k = 3 it has 3^4 times its size
+   after 4 of the 20 passes (known finding C11-exponential-self-reference: the real
+   process runs out of memory before it can report InfiniteLoop). *)
+Fixpoint iter_render (d : data) (n : nat) (v : str) : rres :=
+  match n with 0 => ROk v | S k => match render d v with ROk v' => iter_render d k v' | e => e end end.
+Example C11_size_refuted :
+  let v := B "{{.StructName}}{{.StructName}}{{.StructName}}" in
+  Nat.eqb (match iter_render (bind ex_env v) 4 v with ROk w => length w | RErr _ => 0 end) (3 ^ 4 * length v) = true.
+Proof. vm_compute. reflexivity. Qed.
+
